@@ -179,6 +179,7 @@ fn op() -> impl Strategy<Value = Op> {
         1 => any::<u8>().prop_map(Op::IntoOwnedRevIter),
         1 => any::<u8>().prop_map(Op::CheckNeedle),
         5 => (any::<u8>(), any::<u8>(), any::<u8>()).prop_map(|(f, h, m)| Op::Buf(f, h, m)),
+        3 => any::<u8>().prop_map(Op::CloneDrop),
     ]
 }
 
@@ -229,7 +230,7 @@ fn hist_viol(ctx: &Ctx, h: &History, what: &str) -> Value {
 
 pub fn c16(ctx: &Ctx) -> Frag {
     let mut frag = ctx.frag("history-proptest");
-    frag.require(&[">= 3 searches over different haystacks on one finder", "clone / into_owned taken from a partially consumed iterator", "owned finder or iterator used after the needle buffer was freed", ">= 2 searches of one reused buffer with different contents"]);
+    frag.require(&[">= 3 searches over different haystacks on one finder", "clone / into_owned taken from a partially consumed iterator", "owned finder or iterator used after the needle buffer was freed", ">= 2 searches of one reused buffer with different contents", "clone of an owned finder / iterator used after its source was dropped"]);
     let cases = ctx.n(60_000, 1_000_000);
     let cases = if mvcore::cfgs::cfg_emu() { cases / 4 } else { cases } as u32;
     struct St {
@@ -259,6 +260,10 @@ pub fn c16(ctx: &Ctx) -> Frag {
             }
             if hs.owned_after_drop > 0 && h.before.iter().any(|o| matches!(o, Op::IntoOwned(_) | Op::StartIter(..) | Op::IntoOwnedIter(_))) {
                 s.frag.class("owned finder or iterator used after the needle buffer was freed");
+            }
+            if hs.clone_drops > 0 {
+                s.frag.class("clone of an owned finder / iterator used after its source was dropped");
+                nt = true;
             }
             if hs.buf_searches >= 2 {
                 s.frag.class(">= 2 searches of one reused buffer with different contents");
